@@ -311,7 +311,10 @@ func (s *wsSess) feedEOF() {
 		s.mem.eofAfter = true
 		return
 	}
-	s.srv.after(func() { s.srv.end.ActorClose() })
+	// the server half-closes: the client sees EOF, and what the client still
+	// writes is accepted and ignored instead of provoking a reset that would
+	// destroy data the client has not read yet
+	s.srv.after(func() { s.srv.end.ActorShutdownWrite() })
 }
 
 // pump lets the network move and runs one non-blocking poll cycle.
